@@ -8,4 +8,4 @@ def _native(*a, **k):
     raise NotImplementedError('record-mode spec helper has no native meaning')
 
 
-old = ghost = old_ghost = is_member = set_empty = set_subset = same_set = set_is_added = same_obj = has_field = _native
+ghost_obj = old = ghost = old_ghost = is_member = set_empty = set_subset = same_set = set_is_added = same_obj = has_field = _native
